@@ -231,6 +231,13 @@ func phaseWorker(args []string) int {
 	attempts := map[string]int{}
 	delivered := map[string]bool{} // sub|ref of persistent subscribers with >=1 recv (any phase)
 	stepDone := map[int]bool{}
+	// the payload store is keyed by the payload hash, which transactions with identical payload bytes share: whether the payload of a
+	// transaction was written (and its event created) is taken from the ledgers; the store is only asked when the bytes are unique
+	wpDone := map[string]bool{}
+	payloadCount := map[string]int{}
+	for _, t := range sc.Txs {
+		payloadCount[string(t.Payload)]++
+	}
 	for p := 0; p < phase; p++ {
 		for _, ln := range worker.ReadLedger(ledgerPath(dir, p)) {
 			f := strings.Fields(ln)
@@ -247,6 +254,10 @@ func phaseWorker(args []string) int {
 				if len(f) >= 2 {
 					k, _ := strconv.Atoi(f[1])
 					stepDone[k] = true
+				}
+			case "wp-ok", "wp-committed":
+				if len(f) >= 2 {
+					wpDone[f[1]] = true
 				}
 			}
 		}
@@ -290,6 +301,17 @@ func phaseWorker(args []string) int {
 	}
 	matchRef := func(ref string) bool { return plan.Tx < 0 || ref == targetRef }
 
+	payloadWritten := func(i int) bool {
+		mu.Lock()
+		done := wpDone[sc.Txs[i].Ref]
+		mu.Unlock()
+		if done || payloadCount[string(sc.Txs[i].Payload)] > 1 {
+			return done
+		}
+		pp, _ := st.IsPayloadPresent(ctx, txs[i].PayloadHash())
+		return pp
+	}
+
 	// receivers
 	notifiers := map[string]dag.Notifier{}
 	mkReceiver := func(s subSpec) dag.ReceiverFn {
@@ -328,8 +350,7 @@ func phaseWorker(args []string) int {
 			case "wp-ok":
 				// the private-transaction receiver obtained the payload and writes it (as v2 handleTransactionPayload does), unless it is there already
 				i := idxOf[ref]
-				present, _ := st.IsPayloadPresent(ctx, e.Transaction.PayloadHash())
-				if !present {
+				if !payloadWritten(i) {
 					led.Log("wp-begin %s nested", ref)
 					if err := st.WritePayload(ctx, e.Transaction, e.Transaction.PayloadHash(), sc.Txs[i].Payload); err != nil {
 						led.Log("wp-err %s %s", ref, strings.ReplaceAll(err.Error(), " ", "_"))
@@ -342,8 +363,7 @@ func phaseWorker(args []string) int {
 				// the query went out and the answer was handled before the receiver returned: v2 handleTransactionPayload writes the
 				// payload and marks the private-transaction job finished itself; the receiver reports "sent, not done yet"
 				i := idxOf[ref]
-				present, _ := st.IsPayloadPresent(ctx, e.Transaction.PayloadHash())
-				if present {
+				if payloadWritten(i) {
 					return true, nil
 				}
 				led.Log("wp-begin %s nested", ref)
@@ -409,6 +429,9 @@ func phaseWorker(args []string) int {
 		case "dag.payload.committed":
 			ref := a[0].(hash.SHA256Hash).String()
 			led.Log("wp-committed %s", ref)
+			mu.Lock()
+			wpDone[ref] = true
+			mu.Unlock()
 			if plan.Point == "wp-committed" && matchRef(ref) {
 				kill("wp-committed " + ref)
 			}
@@ -545,7 +568,7 @@ func phaseWorker(args []string) int {
 				led.Log("add-ok %s", tx.Ref())
 			case "wp", "rewp":
 				present, _ := st.IsPresent(ctx, tx.Ref())
-				pp, _ := st.IsPayloadPresent(ctx, tx.PayloadHash())
+				pp := payloadWritten(s.Tx)
 				if !present || (s.Op == "wp" && pp) {
 					led.Log("wp-skip %s %d tx=%v payload=%v", tx.Ref(), i, present, pp)
 					break
@@ -680,6 +703,20 @@ func genScenario(rnd *rand.Rand, seed int64, idx int, maxTx int) *scenario {
 			t = txSpec{PType: []string{typeDID, typeVC}[rnd.Intn(2)], Private: true, Mode: "late"}
 		}
 		t.Payload = dagx.Payload(seed*100000+int64(idx), i)
+		// identical payload bytes under different transactions (one payload-store entry, two payload events): tx 3 always arrives
+		// without payload and repeats the bytes of tx 1 (stored with its Add) or of tx 2 (stored by a WritePayload, before or after);
+		// other transactions whose payload comes later do so now and then
+		if i == 3 {
+			src := 1 + idx%2
+			t = txSpec{PType: sc.Txs[src].PType, Private: rnd.Intn(2) == 0, Mode: []string{"late", "late", "recv"}[rnd.Intn(3)], Payload: sc.Txs[src].Payload}
+			if t.Mode == "recv" {
+				t.Private = true
+			}
+		} else if i > 3 && (t.Mode == "late" || t.Mode == "recv") && rnd.Intn(5) == 0 {
+			src := rnd.Intn(i)
+			t.Payload = sc.Txs[src].Payload
+			t.PType = sc.Txs[src].PType
+		}
 		var pal [][]byte
 		if t.Private {
 			pal = [][]byte{{byte(i), 1, 2, 3}, {byte(idx), 9}}
